@@ -9,7 +9,10 @@ package main
 
 import (
 	"fmt"
+	"io"
 	"os"
+
+	"github.com/sirupsen/logrus"
 
 	"verif/harness/vlib"
 )
@@ -29,17 +32,29 @@ func main() {
 func runC07() {
 	c := vlib.Start("C07")
 	defer c.Finish()
+	if os.Getenv("VERIF_LOG") == "" {
+		logrus.SetOutput(io.Discard)
+	}
 	nHist, nKill, nStart := 200, 24, 8
 	if c.Tier == "thorough" {
 		nHist, nKill, nStart = 5000, 204, 64
 	}
 	lo, hi := c.Slice(nHist)
 	for i := lo; i < hi; i++ {
-		runHistory(c, int64(i), false)
+		runHistory(c, int64(i), "inproc")
 	}
 	lo, hi = c.Slice(nKill)
 	for i := lo; i < hi; i++ {
-		runHistory(c, int64(1_000_000+i), true)
+		runHistory(c, int64(1_000_000+i), "kill")
+	}
+	// remote layer: RemoteService clients -> gRPC -> RpcServer -> local.Service -> fake Consul
+	nRemote := 80
+	if c.Tier == "thorough" {
+		nRemote = 1600
+	}
+	lo, hi = c.Slice(nRemote)
+	for i := lo; i < hi; i++ {
+		runHistory(c, int64(6_000_000+i), "remote")
 	}
 	// file backend: counter in <coreWorkingDir>/runcounter.txt (sets viper coreWorkingDir)
 	nFile := 60
